@@ -911,6 +911,14 @@ func (t *Tr) lockOp(li *LockInv, op string, cc *ssa.CallCommon, pos token.Pos) {
 	case "lock", "rlock":
 		su := styp.Underlying().(*types.Struct)
 		for _, g := range li.Guards {
+			if strings.HasPrefix(g, "ghost.") {
+				// ghost state protected by the lock: other threads may have changed it
+				env0 := &Env{t: t, c: c, vars: map[string]*SVal{}, locs: map[string]*Loc{}, st: st, old: st, pkg: t.pkgByName(li.Pkg)}
+				if _, err := env0.ghostVar(g[6:]); err == nil {
+					c.havoc(st, "ghost:"+g[6:])
+				}
+				continue
+			}
 			for i := 0; i < su.NumFields(); i++ {
 				if su.Field(i).Name() == g {
 					comp, ft := t.regField(styp, i)
